@@ -130,6 +130,37 @@ Theorem ac_first_occurrence_cat : forall m0 lines i, alt_names m0 = [] ->
 Proof. exact Proofs.Autocorrect.ac_first_occurrence_cat. Qed.
 Print Assumptions ac_first_occurrence_cat.
 
+(* the hypothesis on the ids cannot be dropped: a header that lists the SAME id twice with the same name
+   renames that alternative (the dict entry is overwritten by X__1), so no entry keeps the raw name X *)
+Theorem ac_first_occurrence_dup_id_refuted :
+  exists m0 lines i, alt_names m0 = [] /\ OrdIO.ord_parse true false m0 lines = Ok i /\
+    alt_names (OrdIO.o_meta i) = [(1%N, lit "X__1")] /\
+    ~ (let raws := raw_names alt_name_prefix lines in
+       let finals := alt_names (OrdIO.o_meta i) in
+       map fst finals = map fst raws /\
+       forall pre a r post, raws = pre ++ (a, r) :: post ->
+         (~ In r (map snd pre) -> assoc_get N.eqb a finals = Some r) /\
+         (In r (map snd pre) -> exists j, (1 <= j)%N /\ assoc_get N.eqb a finals = Some (suffixed r j))).
+Proof. exact Proofs.Autocorrect.ac_first_occurrence_dup_id_refuted. Qed.
+Print Assumptions ac_first_occurrence_dup_id_refuted.
+
+(* ================================================================================================ *)
+(* ac_clean_noop: on clean content (no raw name listed twice, no ballot on two lines, header counts   *)
+(* equal to the recomputed ones) both flags give the same result - instance or error - up to the      *)
+(* bookkeeping field `reserved` (reserved_names), which only autocorrect=True fills                   *)
+(* ================================================================================================ *)
+Theorem ac_clean_noop_ord : forall m0 lines, alt_names m0 = [] -> ord_clean m0 lines = true ->
+  rmap forget_reserved_o (OrdIO.ord_parse true false m0 lines)
+  = rmap forget_reserved_o (OrdIO.ord_parse false false m0 lines).
+Proof. exact Proofs.Autocorrect.ac_clean_noop_ord. Qed.
+Print Assumptions ac_clean_noop_ord.
+
+Theorem ac_clean_noop_cat : forall m0 lines, alt_names m0 = [] -> cat_clean m0 lines = true ->
+  rmap forget_reserved_c (CatIO.cat_parse true false m0 lines)
+  = rmap forget_reserved_c (CatIO.cat_parse false false m0 lines).
+Proof. exact Proofs.Autocorrect.ac_clean_noop_cat. Qed.
+Print Assumptions ac_clean_noop_cat.
+
 (* ================================================================================================ *)
 (* non-vacuity                                                                                      *)
 (* ================================================================================================ *)
@@ -171,4 +202,27 @@ Proof. vm_compute. reflexivity. Qed.
 Example dirty_cat_hypotheses :
   ids_distinct alt_name_prefix dirty_cat = true /\ ids_distinct cat_name_prefix dirty_cat = true /\
   cat_clean (meta0 (lit "cat")) dirty_cat = false.
+Proof. vm_compute. repeat split. Qed.
+
+Definition clean_ord : list text :=
+  [lit "# TITLE: t"; lit "# NUMBER ALTERNATIVES: 3"; lit "# NUMBER VOTERS: 7"; lit "# NUMBER UNIQUE ORDERS: 2";
+   lit "# ALTERNATIVE NAME 1: X"; lit "# ALTERNATIVE NAME 2: X__1"; lit "# ALTERNATIVE NAME 3: ";
+   lit "5: 1,{2,3}"; lit "2: 3,2,1"].
+
+Example clean_ord_is_clean :
+  ord_clean (meta0 (lit "toc")) clean_ord = true /\
+  is_ok (OrdIO.ord_parse true false (meta0 (lit "toc")) clean_ord) = true /\
+  List.length (ord_ballots clean_ord) = 2.
+Proof. vm_compute. repeat split. Qed.
+
+Definition clean_cat : list text :=
+  [lit "# NUMBER ALTERNATIVES: 2"; lit "# NUMBER VOTERS: 4"; lit "# NUMBER UNIQUE PREFERENCES: 2";
+   lit "# NUMBER CATEGORIES: 2"; lit "# CATEGORY NAME 1: X"; lit "# CATEGORY NAME 2: X__1";
+   lit "# ALTERNATIVE NAME 1: X"; lit "# ALTERNATIVE NAME 2: Y";
+   lit "3: 1, 2"; lit "1: {1, 2}, {}"].
+
+Example clean_cat_is_clean :
+  cat_clean (meta0 (lit "cat")) clean_cat = true /\
+  is_ok (CatIO.cat_parse true false (meta0 (lit "cat")) clean_cat) = true /\
+  List.length (cat_ballots clean_cat) = 2.
 Proof. vm_compute. repeat split. Qed.
